@@ -61,6 +61,12 @@ def main(tier, seed, prop=PROP):
     wb = LG.width_boundary_strings(tier)
     for i in range(0, len(wb), 30):
         jobs.append((LG.w_list, (exe, MODES, wb[i:i + 30], opts, prop, "width-boundaries", False, False)))
+    # local parts larger than the default stack, handed to the validators directly
+    for which in ("atom", "dots", "quoted", "late-8bit", "late-space"):
+        jobs.insert(0, (LG.w_giant, (exe, MODES, (9 if tier == "quick" else 33) * 1024 * 1024, opts, prop, which)))
+    # lengths that do not fit an int (2 GiB and more), in an uninstrumented build; at most three at a time (memory)
+    plain = cx.exe("plain-O2", san="plain-O2")
+    jobs[0:0] = LG.huge_jobs(plain, MODES, tier, opts, prop)
     # long random walks
     nrand = 60 if tier == "quick" else 600
     maxlen = 65536
@@ -73,6 +79,7 @@ def main(tier, seed, prop=PROP):
     evaluations = 0
     for part in core.pmap(_run, jobs):
         rep.merge(part)
+    rep.require(rep.counters.get("huge.strings", 0) > 0, "no 2 GiB input could be allocated")
     c = rep.counters
     evaluations = sum(v for kk, v in c.items() if kk.endswith(".accept") or kk.endswith(".reject"))
     # reference-automaton coverage (measured from the traces of the suites)
